@@ -213,4 +213,124 @@ C03(pre, step, post, out) ==
             /\ out[x].k = "on_transition" /\ out[x].a \in {"external", "internal"}
             /\ \E y \in 1..Len(D.trans) : D.trans[y].name = out[x].b}}
 
+--------------------------------------------------------------------------
+(* configuration along the log of one step, from the entry/exit witnesses   *)
+
+ApplyWitness(C, e) == IF e.k = "sched" THEN C \cup {e.a}
+                      ELSE IF e.k = "cancel" THEN C \ {e.a} ELSE C
+RECURSIVE CfgSeq(_, _, _, _)
+\* CfgSeq[i] = configuration after out[1..i]
+CfgSeq(out, i, cur, acc) ==
+  IF i > Len(out) THEN acc
+  ELSE LET nxt == ApplyWitness(cur, out[i]) IN CfgSeq(out, i + 1, nxt, Append(acc, nxt))
+
+Aborted(post, out) == post.err # NoErr \/ \E i \in 1..Len(out) : out[i].k \in {"rearm", "loop_error"}
+
+--------------------------------------------------------------------------
+(* C10 -- completion                                                         *)
+
+\* literal reading: the active child IS a final state / every region is in a final state
+RECURSIVE InFinalLit(_, _)
+InFinalLit(s, C) ==
+  IF Kind(s) = "compound" THEN \E c \in C : c # D.root /\ Parent(c) = s /\ Kind(c) = "final"
+  ELSE IF Kind(s) = "parallel" THEN
+     \A i \in 1..Len(Kids(s)) : LET r == Kids(s)[i] IN
+        Kind(r) = "history" \/ (Kind(r) = "final" /\ r \in C) \/ (Kind(r) \in {"compound", "parallel"} /\ InFinalLit(r, C))
+  ELSE FALSE
+
+Rising(P(_), cfgs, pre) ==   \* number of indices at which P becomes true
+  Cardinality({i \in 1..Len(cfgs) : P(cfgs[i]) /\ ~P(IF i = 1 THEN pre ELSE cfgs[i - 1])})
+
+RootFinals(C) == {f \in C : f # D.root /\ Parent(f) = D.root /\ Kind(f) = "final"}
+ExpectedOutput(C) ==
+  IF D.machineOutput # NONE THEN D.machineOutput
+  ELSE IF RootFinals(C) = {} THEN NONE ELSE D.output[CHOOSE f \in RootFinals(C) : TRUE]
+
+OnDoneOwner(tname) ==   \* the state whose onDone transition is called tname, or NONE
+  LET S == {s \in D.states : \E i \in 1..Len(D.tix[s].onDone) : D.trans[D.tix[s].onDone[i]].name = tname}
+  IN IF S = {} THEN NONE ELSE CHOOSE s \in S : TRUE
+
+C10(pre, step, post, out, eng) ==
+  LET cfgs == CfgSeq(out, 1, pre.config, <<>>)
+      dones == {i \in 1..Len(out) : out[i].k = "done"}
+      owners == {s \in D.states : HasOnDone(s)}
+      logged == eng # "pure"
+  IN \* ---- the machine itself
+     Tag((RootFinals(post.config) # {} /\ ~HasOnDone(D.root) /\ post.err = NoErr /\ Legal(post.config)
+            /\ step.op \in {"start", "send"} /\ eng # "pure")
+           => post.status \in {"done", "stopped"}, "root_final_not_done")
+     \cup Tag(Cardinality(dones) <= 1, "done_twice")
+     \cup Tag(dones # {} => (pre.status \in {"running", "uninitialized"} /\ post.status = "done"), "done_status")
+     \cup Tag((post.status = "done" /\ pre.status # "done" /\ eng # "pure" /\ RootFinals(post.config) # {})
+                => post.output = ExpectedOutput(post.config), "output")
+     \* once done, the machine stays in its top-level final state
+     \cup Tag((post.status = "done" /\ eng # "pure" /\ post.err = NoErr
+                 /\ (pre.status # "done" \/ RootFinals(pre.config) # {})) => RootFinals(post.config) # {},
+              "left_final_state_after_done")
+     \cup Tag((pre.status = "done" /\ eng # "pure") =>
+                (SameObservable(pre, post) /\ post.output = pre.output
+                 /\ \A i \in 1..Len(out) : out[i].k \notin (EffectKinds \ {"enq"})), "ignored_after_done")
+     \* events dequeued after the machine completed run no user code (the rest of the
+     \* macrostep that completed it may)
+     \cup Tag(logged => \A i \in dones : \A j \in (i + 1)..Len(out) : out[j].k = "event" =>
+                  \A x \in (j + 1)..Len(out) : out[x].k # "act", "code_after_done")
+     \* ---- onDone of compound / parallel states
+     \cup Tag(logged => \A j \in 1..Len(out) :
+                (out[j].k = "on_transition" /\ OnDoneOwner(out[j].b) # NONE
+                   /\ Kind(OnDoneOwner(out[j].b)) = "parallel")
+                   => IsDone(out[j].d, OnDoneOwner(out[j].b)), "taken_while_region_not_final")
+     \cup (IF ~logged \/ Aborted(post, out) THEN {}
+         ELSE UNION {
+            LET enq == Cardinality({i \in 1..Len(out) : out[i].k = "enq" /\ out[i].a = D.doneEv[s]})
+                lit == Rising(LAMBDA C : s \in C /\ InFinalLit(s, C), cfgs, pre.config)
+                rec == Rising(LAMBDA C : s \in C /\ IsDone(C, s), cfgs, pre.config)
+            IN Tag(post.status # "running" \/ lit <= enq, "completion_without_done_event")
+               \cup Tag(enq <= rec, "done_event_without_completion")
+            : s \in owners \ {D.root} })
+
+--------------------------------------------------------------------------
+(* C11 -- history                                                            *)
+
+RECURSIVE DefClosure(_)
+DefClosure(s) ==
+  {s} \cup (IF Kind(s) = "compound" /\ D.initial[s] \in D.states THEN DefClosure(D.initial[s])
+           ELSE IF Kind(s) = "parallel"
+                THEN UNION {DefClosure(Kids(s)[i]) : i \in {x \in 1..Len(Kids(s)) : Kind(Kids(s)[x]) # "history"}}
+                ELSE {})
+
+\* states activated inside p when p is entered towards the explicit target t (a descendant of p)
+RECURSIVE EnterTowards(_, _)
+EnterTowards(t, p) ==
+  IF t = p THEN {}
+  ELSE LET q == Parent(t)
+           others == IF Kind(q) = "parallel"
+                     THEN UNION {DefClosure(Kids(q)[i]) : i \in {x \in 1..Len(Kids(q)) :
+                                    Kind(Kids(q)[x]) # "history" /\ Kids(q)[x] # t}}
+                     ELSE {}
+       IN {t} \cup others \cup EnterTowards(q, p)
+
+C11Entry(pre, out, j) ==
+  LET t == CHOOSE x \in 1..Len(D.trans) : D.trans[x].name = out[j].b
+      h == D.trans[t].tgt
+      p == Parent(h)
+      lo == SegStart(out, j)
+      exitedEarlier == \E i \in 1..(lo - 1) : out[i].k = "cancel" /\ out[i].a = p
+      ghost == IF p \in DOMAIN pre.hist THEN pre.hist[p] ELSE {}
+      inside == {n \in out[j].c : n # p /\ n \in DescSet(p)}
+      leaves(S) == {n \in S : IsLeaf(n)}
+  IN IF p \in out[j].d \/ exitedEarlier THEN {}          \* parent still active: unspecified
+     ELSE IF ghost = {} THEN
+        IF D.hdefault[h] # NONE
+        THEN Tag(inside = EnterTowards(D.hdefault[h], p) \cup DefClosure(D.hdefault[h]), "default_target")
+        ELSE Tag(inside = DefClosure(p) \ {p}, "default_entry")
+     ELSE IF D.hkind[h] = "deep" THEN Tag(leaves(inside) = leaves(ghost), "deep")
+     ELSE Tag(inside = UNION {DefClosure(c) : c \in {x \in ghost : Parent(x) = p}}, "shallow")
+
+C11(pre, step, post, out, eng) ==
+  IF eng = "pure" \/ Aborted(post, out) THEN {}
+  ELSE UNION {C11Entry(pre, out, j) : j \in {x \in 1..Len(out) :
+                /\ out[x].k = "on_transition" /\ out[x].a = "external"
+                /\ \E y \in 1..Len(D.trans) : D.trans[y].name = out[x].b /\ D.trans[y].tgt \in D.states
+                                                  /\ Kind(D.trans[y].tgt) = "history"}}
+
 =============================================================================
